@@ -262,4 +262,72 @@ theorem xorshift_lt (x s n : Nat) (h : x < 2 ^ n) : x ^^^ (x >>> s) < 2 ^ n := b
   apply Nat.xor_lt_two_pow h
   exact Nat.lt_of_le_of_lt (by rw [Nat.shiftRight_eq_div_pow]; exact Nat.div_le_self _ _) h
 
+/-! ### XXH3 results fit 64 / 128 bits -/
+
+theorem xxh3_avalanche_lt (h : Nat) : XXH3.avalanche h < 2 ^ 64 := by
+  unfold XXH3.avalanche XXH3.xorshift
+  exact xorshift_lt _ 32 64 (Nat.mod_lt _ (by decide))
+
+theorem xxh_avalanche64_lt (h : Nat) : XXH3.avalanche64 h < 2 ^ 64 := by
+  unfold XXH3.avalanche64 XXH.avalanche64
+  exact xorshift_lt _ 32 64 (Nat.mod_lt _ (by decide))
+
+theorem xxh3_rrmxmx_lt (h len : Nat) : XXH3.rrmxmx h len < 2 ^ 64 := by
+  unfold XXH3.rrmxmx XXH3.xorshift
+  exact xorshift_lt _ 28 64 (Nat.mod_lt _ (by decide))
+
+theorem xxh3_mergeAccs_lt (acc : List Nat) (soff start : Nat) : XXH3.mergeAccs acc soff start < 2 ^ 64 := by
+  unfold XXH3.mergeAccs
+  split
+  · exact xxh3_avalanche_lt _
+  · decide
+
+theorem xxh3_64_lt (m : Bytes) : XXH3.xxh3_64 m < 2 ^ 64 := by
+  unfold XXH3.xxh3_64
+  extract_lets len
+  split
+  · exact xxh_avalanche64_lt _
+  split
+  · exact xxh_avalanche64_lt _
+  split
+  · exact xxh3_rrmxmx_lt _ _
+  split
+  · exact xxh3_avalanche_lt _
+  split
+  · exact xxh3_avalanche_lt _
+  split
+  · exact xxh3_avalanche_lt _
+  · exact xxh3_mergeAccs_lt _ _ _
+
+theorem pack128_lt (hi lo : Nat) (h1 : hi < 2 ^ 64) (h2 : lo < 2 ^ 64) : hi * M64 + lo < 2 ^ 128 := by
+  have : M64 = 2 ^ 64 := by decide
+  rw [this]
+  have : hi * 2 ^ 64 ≤ (2 ^ 64 - 1) * 2 ^ 64 := Nat.mul_le_mul_right _ (by omega)
+  have e : (2:Nat) ^ 128 = (2 ^ 64 - 1) * 2 ^ 64 + 2 ^ 64 := by decide
+  omega
+
+theorem xxh3_finish128_lt (acc : Nat × Nat) (len : Nat) : XXH3.finish128 acc len < 2 ^ 128 := by
+  unfold XXH3.finish128 XXH3.sub64
+  exact pack128_lt _ _ (Nat.mod_lt _ (by decide)) (xxh3_avalanche_lt _)
+
+theorem xorshift28_lt (x : Nat) : XXH3.xorshift (x % M64) 28 < 2 ^ 64 := by
+  unfold XXH3.xorshift; exact xorshift_lt _ 28 64 (Nat.mod_lt _ (by decide))
+
+theorem xxh3_128_lt (m : Bytes) : XXH3.xxh3_128 m < 2 ^ 128 := by
+  unfold XXH3.xxh3_128
+  extract_lets len
+  split
+  · exact pack128_lt _ _ (xxh_avalanche64_lt _) (xxh_avalanche64_lt _)
+  split
+  · exact pack128_lt _ _ (xxh_avalanche64_lt _) (xxh_avalanche64_lt _)
+  split
+  · exact pack128_lt _ _ (xxh3_avalanche_lt _) (xorshift28_lt _)
+  split
+  · exact pack128_lt _ _ (xxh3_avalanche_lt _) (xxh3_avalanche_lt _)
+  split
+  · exact xxh3_finish128_lt _ _
+  split
+  · exact xxh3_finish128_lt _ _
+  · exact pack128_lt _ _ (xxh3_mergeAccs_lt _ _ _) (xxh3_mergeAccs_lt _ _ _)
+
 end C27
